@@ -37,19 +37,40 @@ INF = float("inf")
 # linearised-order table
 
 
+def table_requests(c):
+    """history of coefficient requests on the shared class: every (order, eps) at least once, the same
+    order with a coarse tolerance before a fine one and vice versa, repeated requests (cache hits)"""
+    rng = c.rng
+    reqs = []
+    for order in (2, 3, 4, 5):
+        es = [0.25, 0.1, 0.05] if order < 5 else [0.25, 0.1]
+        reqs += [(order, e, "balanced") for e in es]                     # coarse first
+    reqs += [(2, 0.02, "balanced"), (2, 0.25, "balanced"), (3, 0.1, "balanced")]  # fine, then coarse again, repeat
+    tail = [(rng.choice([2, 3, 4]), rng.choice([0.25, 0.1, 0.05, 0.02]), "balanced") for _ in range(6)]
+    head = reqs[:]
+    rng.shuffle(head)
+    # the "abs" kind on tolerances the balanced kind never uses here (the cache key has no kind: probe below)
+    return reqs + head + tail + [(2, 0.125, "abs"), (3, 0.0625, "abs"), (2, 0.125, "abs")]
+
+
 def table_check(c):
     from rtctools.optimization.linearized_order_goal_programming_mixin import LinearizedOrderGoal
 
-    eps = 0.1
+    LinearizedOrderGoal._linear_coefficients.clear()
     lines = []
     meta = []
-    for order in (2, 3, 4, 5):
-        LinearizedOrderGoal._linear_coefficients.pop(eps, None) if order == 2 else None
-        tab = [(float(a), float(b)) for a, b in LinearizedOrderGoal._get_linear_coefficients(order)]
+    seen = {}
+    for step, (order, eps, kind) in enumerate(table_requests(c)):
+        tab = [(float(a), float(b)) for a, b in LinearizedOrderGoal._get_linear_coefficients(order, eps, kind)]
         K = len(tab)
-        case = {"order": order, "table": tab}
-        c.count(("table", order, K))
-        c.hit("table/order%d/%d-lines" % (order, K))
+        case = {"order": order, "eps": eps, "kind": kind, "request_number": step, "table": tab}
+        c.count(("table", order, eps, kind, K))
+        c.hit("table/requests")
+        c.hit("table/order%d/eps=%g/%s/%d-lines" % (order, eps, kind, K))
+        key = (order, eps, kind)
+        if key in seen and seen[key] != tab:
+            c.fail("linearised-order table: a repeated request returns a different table", case, seen[key])
+        seen[key] = tab
         fa = [(Fraction(a), Fraction(b)) for a, b in tab]
         # knots: consecutive lines intersect at x_{i+1}; x_0 = 0, x_K = 1
         xs = [Fraction(0)]
@@ -75,17 +96,18 @@ def table_check(c):
         if worst > Fraction(1, 10 ** 12):
             c.fail("linearised-order table differs from the chord formula at its own knots by more than 1e-12",
                    case, {"knots": [float(x) for x in xs], "max_abs_error": float(worst)})
-        # plain-Python property oracle on a grid: lin >= x^r, lin(0) = 0, lin(1) = 1, tolerance, monotone
-        grid = [Fraction(k, 64) for k in range(65)] + xs
+        # plain-Python property oracle for THIS request's tolerance: lin >= x^r, lin - x^r <= eps,
+        # lin(0) = 0, lin(1) = 1, non-decreasing
+        grid = [Fraction(k, 64) for k in range(65)] + xs + [(xs[i] + xs[i + 1]) / 2 for i in range(K)]
         prev = None
         for x in sorted(set(grid)):
             lin = max(a * x + b for a, b in fa)
             if lin < x ** order - Fraction(1, 10 ** 12):
                 c.fail("linearised penalty underestimates eps^order", case, {"x": float(x), "lin": float(lin)})
                 break
-            if lin - x ** order > Fraction(eps) * 1 + Fraction(1, 10 ** 9):
-                c.fail("linearised penalty overestimates eps^order by more than its tolerance", case,
-                       {"x": float(x), "lin": float(lin)})
+            if lin - x ** order > Fraction(eps) + Fraction(1, 10 ** 9):
+                c.fail("linearised penalty overestimates eps^order by more than the tolerance it was requested with",
+                       case, {"x": float(x), "lin": float(lin), "x^order": float(x ** order), "eps": eps})
                 break
             if prev is not None and lin < prev - Fraction(1, 10 ** 12):
                 c.fail("linearised penalty is not non-decreasing", case, {"x": float(x)})
@@ -98,7 +120,8 @@ def table_check(c):
         q = [Fraction(k, 16) for k in range(17)]
         lines.append({"op": "lin", "r": order, "knots": [fr(x) for x in xs], "q": [fr(x) for x in q]})
         meta.append((order, tab, xs, q, case))
-        c.sample({"order": order, "lines": K, "knots": [float(x) for x in xs]}, limit=2)
+        c.sample({"order": order, "eps": eps, "kind": kind, "lines": K, "knots": [float(x) for x in xs]}, limit=2)
+    probe_cache_kind(c)
     outs = c.model(lines)
     if outs is None:
         return
@@ -112,8 +135,9 @@ def table_check(c):
         # stated tolerance: chord-vs-tangent gap of every segment = eps * q^(r-1) (the code's root
         # equation); the last knot is moved to 1, which only shrinks the last gap
         gaps = [unfr(g) for g in mo["gaps"]]
+        eps, kind = case["eps"], case["kind"]
         for i, g in enumerate(gaps):
-            bound = 0.1 * float(xs[i + 1]) ** (order - 1)
+            bound = eps * (float(xs[i + 1]) ** (order - 1) if kind == "balanced" else 1.0)
             last = i == len(gaps) - 1
             if float(g) > bound * (1 + 1e-6) + 1e-12 or (not last and abs(float(g) - bound) > 1e-6 * bound + 1e-12):
                 c.fail("segment gap of the linearised-order table is not its stated tolerance eps*x^(order-1)",
@@ -127,6 +151,35 @@ def table_check(c):
 
 # ---------------------------------------------------------------------------------------------
 # paired runs
+
+
+def probe_cache_kind(c):
+    """candidate finding (tmp id F50): the class-level cache of `_get_linear_coefficients` is keyed by
+    (eps, order) only, so the `kind` of the first request decides the table of later requests with the
+    same (eps, order) and the other kind"""
+    from rtctools.optimization.linearized_order_goal_programming_mixin import LinearizedOrderGoal as L
+
+    saved = dict(L._linear_coefficients)
+    try:
+        L._linear_coefficients.clear()
+        L._get_linear_coefficients(2, 0.1, "abs")
+        mixed = [(float(a), float(b)) for a, b in L._get_linear_coefficients(2, 0.1, "balanced")]
+        L._linear_coefficients.clear()
+        own = [(float(a), float(b)) for a, b in L._get_linear_coefficients(2, 0.1, "balanced")]
+    finally:
+        L._linear_coefficients.clear()
+        L._linear_coefficients.update(saved)
+    c.count(("probe", "F50"))
+    bad = mixed != own
+    what = ("_get_linear_coefficients(2, 0.1, 'balanced') after (2, 0.1, 'abs') returns the 'abs' table (%d lines, own "
+            "table %d lines): the cache key has no `kind`; the balanced tolerance eps*x^(order-1) is exceeded near 0"
+            % (len(mixed), len(own)))
+    entry = next((k for k in c.known if k["id"] == "F50"), None)
+    if entry is None:
+        c.extra.setdefault("candidate_findings", []).append({"id": "F50", "reproduced": bad, "what": what})
+        c.hit("probe/F50-" + ("reproduced(unlisted)" if bad else "not-reproduced"))
+    else:
+        c.known_probe("F50", bad, what)
 
 
 def objs(pr):
